@@ -50,6 +50,18 @@ if hasattr(np, "float128"):
     _FREQUENCY_SUPPORTED_DTYPES.append(np.float128)  # type: ignore
 
 
+def missed_as_dtype(missed: ArrayLike, dtype: DTypeLike) -> np.ndarray:
+    """Missed values in the dtype of the bin contents.
+
+    Unknown (NaN) values stay floating, integers cannot hold them.
+    """
+    array = np.asarray(missed)
+    if array.dtype.kind == "f" and np.dtype(dtype).kind in "iu":
+        if np.isnan(array).any():
+            return array.astype(float)
+    return array.astype(dtype)
+
+
 class HistogramBase(abc.ABC):
     """Histogram base class.
 
@@ -356,7 +368,7 @@ class HistogramBase(abc.ABC):
         if self._errors2 is not None:
             self._errors2 = self._errors2.astype(value)
         if self._missed is not None:
-            self._missed = self._missed.astype(value)
+            self._missed = missed_as_dtype(self._missed, value)
 
     def _coerce_dtype(self, other_dtype: DTypeLike) -> None:
         """Possibly change the bin content type to allow correct operations with other operand.
@@ -900,7 +912,7 @@ class HistogramBase(abc.ABC):
                 self._coerce_dtype(other.dtype)
                 self.frequencies = self.frequencies + other.frequencies
                 self.errors2 = self.errors2 + other.errors2
-                self._missed += other._missed
+                self._missed = self._missed + other._missed
             elif self.is_adaptive():
                 if other.missed > 0:
                     raise ValueError("Cannot adapt histogram with missed values.")
@@ -957,7 +969,7 @@ class HistogramBase(abc.ABC):
                 self.errors2 = (adapted_self.errors2 + adapted_other.errors2).astype(
                     self.dtype
                 )
-                self._missed -= other._missed
+                self._missed = self._missed - other._missed
             self._stats = INVALID_STATISTICS
             return self
         array = np.asarray(other)
